@@ -511,7 +511,7 @@ fn judge_success(w: &mut World, rep: &mut Report, p: &Pending, name: &str, s3: &
 	}
 }
 
-fn exported_proof_checks(w: &mut World, rep: &mut Report, p: &Pending, rng: &mut Rng, mined: bool) {
+fn exported_proof_checks(w: &mut World, rep: &mut Report, p: &Pending, rng: &mut Rng, mined: bool) -> Option<PaymentProof> {
 	let wal = &w.wallets[0];
 	let case = json!({"job":"c11","flow": format!("{:?}", p.flow), "mined": mined});
 	// addressed by the sent entry's log id (a self-send has two entries under one slate id)
@@ -520,7 +520,7 @@ fn exported_proof_checks(w: &mut World, rep: &mut Report, p: &Pending, rng: &mut
 		Ok(pr) => pr,
 		Err(e) => {
 			rep.violation("C11|export-failed", &format!("retrieve_payment_proof failed after a successful proof-carrying send: {:?}", e), case);
-			return;
+			return None;
 		}
 	};
 	rep.eval();
@@ -537,7 +537,7 @@ fn exported_proof_checks(w: &mut World, rep: &mut Report, p: &Pending, rng: &mut
 		} else {
 			rep.count("unmined-proof-rejected");
 		}
-		return;
+		return None;
 	}
 	// every alteration must fail
 	let other = crate::gen::ed_keypair(&[0x55u8; 32]);
@@ -606,6 +606,46 @@ fn exported_proof_checks(w: &mut World, rep: &mut Report, p: &Pending, rng: &mut
 			Err((loc, msg)) => rep.violation(&format!("C11|panic|{}", loc), &msg, case.clone()),
 		}
 	}
+	Some(proof)
+}
+
+/// C11 last clause, second half: a proof whose kernel was on chain stops verifying once the blocks that
+/// contained it are replaced by a longer fork without the transaction. Done once, as the last action
+/// of a shard (the reorganisation invalidates the wallets' view of later history).
+fn proof_after_reorg(w: &mut World, rep: &mut Report, proof: &PaymentProof) {
+	let chain = w.chain();
+	let tip = chain.head().map(|h| h.height).unwrap_or(0);
+	let kh = match chain.get_kernel_height(&proof.excess, None, None) {
+		Ok(Some((_, h, _))) => h,
+		_ => {
+			rep.inconclusive("kernel of the last verified proof not found on chain before the reorganisation");
+			return;
+		}
+	};
+	let wal = &w.wallets[0];
+	match owner::verify_payment_proof(wal.inst.clone(), None, proof) {
+		Ok(_) => {}
+		Err(e) => {
+			rep.inconclusive(&format!("the proof no longer verified before the reorganisation: {:?}", e));
+			return;
+		}
+	}
+	let len = (tip - (kh - 1)) as usize + 1;
+	if let Err(e) = w.build_fork(kh - 1, len, &[], 77) {
+		rep.inconclusive(&format!("fork builder failed: {}", e));
+		return;
+	}
+	if w.kernel_on_chain(&proof.excess) {
+		rep.inconclusive("the fork did not remove the kernel");
+		return;
+	}
+	rep.eval();
+	let wal = &w.wallets[0];
+	match catch(|| owner::verify_payment_proof(wal.inst.clone(), None, proof)) {
+		Ok(Ok(_)) => rep.violation("C11|verifies-after-kernel-reorganised-away", &format!("verify_payment_proof succeeds although the block holding the kernel (height {}) was replaced by a longer fork without it", kh), json!({"job": "c11", "kernel_height": kh, "old_tip": tip, "fork_length": len})),
+		Ok(Err(_)) => rep.count("reorganised-away-proof-rejected"),
+		Err((loc, msg)) => rep.violation(&format!("C11|panic|{}", loc), &msg, json!({"job": "c11"})),
+	}
 }
 
 pub fn run(a: &Args, prop: &'static str) {
@@ -621,6 +661,7 @@ pub fn run(a: &Args, prop: &'static str) {
 	// a reply of an unrelated transaction, as a donor of valid keys/outputs/signatures
 	let donor = make_pending(&mut w, &mut rng, Flow::Send, true).ok().map(|p| p.honest_reply);
 	cleanup(&mut w);
+	let mut last_proof: Option<PaymentProof> = None;
 	for si in 0..n_scen {
 		let flow = flows[(si + a.shard) % flows.len()];
 		let with_proof = proof_focus || rng.chance(1, 3);
@@ -668,7 +709,9 @@ pub fn run(a: &Args, prop: &'static str) {
 					}
 					judge_success(&mut w, &mut rep, &p, &name, &s3, prop);
 					if proof_focus && p.proof_recipient.is_some() {
-						exported_proof_checks(&mut w, &mut rep, &p, &mut rng, true);
+						if let Some(pr) = exported_proof_checks(&mut w, &mut rep, &p, &mut rng, true) {
+							last_proof = Some(pr);
+						}
 					}
 					if rep.samples.len() < 4 {
 						rep.sample(json!({"flow": format!("{:?}", p.flow), "mutant": name, "outcome": "accepted and judged exact", "amount": p.amount.to_string(), "fee": p.fee}));
@@ -720,6 +763,9 @@ pub fn run(a: &Args, prop: &'static str) {
 			}
 		}
 		cleanup(&mut w);
+	}
+	if let Some(pr) = last_proof {
+		proof_after_reorg(&mut w, &mut rep, &pr);
 	}
 	let _: Option<(SecretKey, Value)> = None;
 	rep.write(&a.out);
